@@ -1,6 +1,6 @@
 """C20 — the auto-reloader never loses a reload request (DESIGN.md §3 C20)."""
 import json, os, subprocess, collections
-from common import ENV, VERIF
+from common import ENV, VERIF, REPO, BUILD, sh
 
 READY = True
 
@@ -9,7 +9,7 @@ META = {
     "category": "proof",
     "text": "Kernel-checked theorems over every reachable state of the reloader protocol model (any number of acquiring, requesting and fast-reload-switching threads, any interleaving of the atomic steps, creator callbacks that issue requests / switch fast reload / fail, freshness callback): a request that returned before an acquire locked is served by the environment that acquire hands out (creator started or templates cleared after the flag was set); no step replaces, rebuilds or clears the environment while a guard is held; every creator call or clear is caused by its own observation and the flag is observed true at most once per request; a request arriving while the creator runs keeps the flag up and the next acquire rebuilds. The model is tied to /repo by replaying model-enumerated schedules (all interleavings at the hook points for the small boxes, eager-return-reduced or sampled for 3x3) on the real code and comparing the whole observation (arrival point of every step, generation and loader-call number seen through every guard, creator calls with their step), plus the property itself evaluated on the observed history.",
     "design_ref": "DESIGN.md §3 C20",
-    "level_note": "Trusted: Lean kernel; hand transcription of acquire_env/request_reload/should_reload/prepare_and_mark_reload/set_fast_reload into MJ/Model/Reloader.lean (validated by the schedule replay: every step's arrival point and every observable result must agree); atomicity of std::sync::Mutex critical sections; the hook points are the only places where the scheduler interleaves (a step between two hook points runs without interference). The fs-watcher callback (same two statements as request_reload, feature watch-fs) and on_should_reload callbacks are not exercised.",
+    "level_note": "Trusted: Lean kernel; hand transcription of acquire_env/request_reload/should_reload/prepare_and_mark_reload/keep_reload_pending/set_fast_reload/set_callback into MJ/Model/Reloader.lean, tied three ways: (a) the per-function sequence of shared accesses (locks, flag/fast/callback reads and writes, creator, clear, hand-out) is re-extracted from lib.rs on every run and proved equal to the sequence the model's steps assume (MJ.C20.accesses_as_modelled; regex extractor lib/tables/c20.py is trusted), so a new access anywhere breaks the tie even where no hook sits; (b) schedule replay at hook granularity (every notifier-lock acquisition of acquire_env except the re-arm after a failed creator is preceded by a hook); (c) the property evaluated on the observed history. The fs-watcher closure is proved to perform request_reload's critical sections (fs_callback_is_request) and exercised with real file changes only in the thorough tier (smoke test). Not covered: a PANICKING creator (outside C20's statement): the panic propagates out of acquire_env and poisons the cached_env mutex, every later acquire_env panics on lock().unwrap() (recorded under coverage.info, the harness survives it); in full-reload mode without persistent_watch the fs watcher is dropped before the creator runs and only exists again once the creator calls watch_path, so file changes in that window produce no notification at all (the creator must register before it reads).",
 }
 
 NPROC = 8
@@ -19,8 +19,12 @@ def parse_cfg(cfg):
     parts = cfg.split(".")
     ths = []
     for t in parts[2:]:
-        if t == "R":
-            ths.append(("R",))
+        if t in ("R", "K"):
+            ths.append(("R", t))
+        elif t in ("F0", "F1"):
+            ths.append(("F", t == "F1"))
+        elif t in ("C0", "C1"):
+            ths.append(("C", t == "C1"))
         else:
             ths.append(("A", t[2] == "1", t[4] == "1", t[5:].replace("-", "")))
     return parts[0] == "f1", parts[1] == "e1", ths
@@ -56,15 +60,25 @@ def oracle(cfg, sched, obs):
             per_thread[t].append((k, p))
     sets = []                                      # (set_step, ret_step, by)
     acqs = {}                                      # thread -> dict
+    const_cb = []                                  # (step, answer) of set_callback(|| b) threads
+    fast_sets = []
     for t, evs in per_thread.items():
+        if ths[t][0] == "C":
+            const_cb.append((evs[0][0], ths[t][1]))
+            continue
+        if ths[t][0] == "F":
+            fast_sets.append((evs[0][0], ths[t][1]))
+            continue
         if ths[t][0] == "R":
             ks = [k for k, p in evs if p == "T"]
             kr = [k for k, p in evs if p == "D"]
             if ks:
                 sets.append((ks[0], kr[0] if kr else 10**9, t))
         else:
-            a = {"lock": evs[0][0], "reset": None, "hand": None, "clear_step": None, "leftB": None}
+            a = {"lock": evs[0][0], "check": None, "reset": None, "hand": None, "clear_step": None, "leftB": None}
             for j, (k, p) in enumerate(evs):
+                if p == "K":
+                    a["check"] = k
                 if p == "T":
                     nxt = evs[j + 1][0] if j + 1 < len(evs) else 10**9
                     sets.append((k, nxt, t))
@@ -131,12 +145,18 @@ def oracle(cfg, sched, obs):
                               f"{a['lock']} and handed out {got.get(t)} which was built/cleared at step {fresh[t]}",
                               f"lost-request:{kind}"))
     # ---- no_spurious_create: every reload decision is justified
+    def cb_answer(t):
+        """what the freshness callback answers when polled by acquire t: the latest set_callback(|| b)
+        before its check, else the initial callback (answers the acquire's own configuration)"""
+        chk = acqs[t]["check"] if acqs[t]["check"] is not None else 10**9
+        prior = [(k, b) for (k, b) in const_cb if k < chk]
+        return max(prior)[1] if prior else ths[t][1]
     resets = sorted((a["reset"], t) for t, a in acqs.items() if a["reset"] is not None)
     prev_reset, prev_failed = -1, False
     have_env_before = lambda k: any((bk < k and not bf) for (bk, bf) in builds.values())
     for k_z, t in resets:
         a = acqs[t]
-        justified = (not have_env_before(a["lock"])) or ths[t][1] or prev_failed or \
+        justified = (not have_env_before(a["lock"])) or cb_answer(t) or prev_failed or \
             any(prev_reset < ks < k_z for (ks, _, _) in sets)
         if not justified:
             fails.append((f"acquire {t} decided to reload at step {a['lock']} although no request was made since the last reload "
@@ -147,9 +167,34 @@ def oracle(cfg, sched, obs):
     n_passB = sum(1 for a in acqs.values() if a["leftB"] is not None)
     if n_cre != n_passB or n_cre != len(builds):
         fails.append((f"{n_cre} creator calls but {n_passB} acquires went past BeforeCreate", "spurious-create"))
-    bound = 1 + sum(1 for (_, f) in builds.values() if f) + len(sets) + sum(1 for x in ths if x[0] == "A" and x[1])
+    bound = 1 + sum(1 for (_, f) in builds.values() if f) + len(sets) + sum(1 for t in acqs if cb_answer(t))
     if n_cre > bound:
         fails.append((f"{n_cre} creator calls > 1 + failures + requests + callback answers = {bound}", "spurious-create"))
+    # ---- environment identity: what a guard shows is the product of the latest successful creator
+    #      call (full reload = a new object, fast reload / no reload = the same object)
+    for k_h, t in order:
+        v = got.get(t, "").split("!")[0]
+        if not (v.startswith("g") and "l" in v):
+            continue
+        g = int(v[1:v.index("l")])
+        done = [gg for gg, (bk, bf) in builds.items() if not bf and bk < k_h]
+        if done and g != max(done):
+            fails.append((f"acquire {t} handed out generation {g} but the latest successful creator call before its hand-out produced {max(done)}",
+                          "identity:stale-object"))
+        if acqs[t]["clear_step"] is not None and any(bk == acqs[t]["clear_step"] for (bk, _) in builds.values()):
+            fails.append((f"acquire {t} took the clear path but a creator call was observed in it", "identity:clear-path-created"))
+    # documented: with fast reload enabled the creator is only called once (as long as it succeeds and nobody switches it off)
+    scripts = "".join(x[3] for x in ths if x[0] == "A")
+    if fast0 and "u" not in scripts and not any(x[0] == "F" and not x[1] for x in ths):
+        for gg, (bk, bf) in builds.items():
+            if have_env_before(bk):
+                fails.append((f"fast reload is on but creator call {gg} (step {bk}) replaced an existing environment", "fast-reload:creator-called-again"))
+    # on_should_reload callback: once per request_reload, plus once per callback-triggered reload
+    if "O" in d:
+        o = int(d["O"])
+        returned = sum(1 for (_, kr, _) in sets if kr < 10**9)
+        if not (returned <= o <= returned + len(resets)):
+            fails.append((f"on_should_reload callback invoked {o} times for {returned} requests and {len(resets)} reloads", "on-should-reload-count"))
     return fails, obligations
 
 
@@ -181,17 +226,52 @@ def run_parallel(exe, text, seed, tier):
     return res, bad
 
 
+def wfs_smoke(r):
+    """thorough tier only: the real watch-fs feature (notify) with real file changes in a temp dir.
+    Built as a scratch crate under .build/ (needs `notify`, which harness/Cargo.toml does not have)."""
+    d = os.path.join(BUILD, "c20_wfs")
+    os.makedirs(os.path.join(d, "src"), exist_ok=True)
+    with open(os.path.join(d, "Cargo.toml"), "w") as fh:
+        fh.write('[package]\nname = "c20_wfs"\nversion = "0.1.0"\nedition = "2021"\n[workspace]\n[dependencies]\n'
+                 f'minijinja = {{ path = "{REPO}/minijinja" }}\n'
+                 f'minijinja-autoreload = {{ path = "{REPO}/minijinja-autoreload" }}\n'
+                 'notify = { version = ">=5.0.0,<9.0.0", default-features = false, features = ["macos_fsevent"] }\n')
+    import shutil
+    shutil.copy(os.path.join(VERIF, "lib", "props", "c20_wfs", "main.rs"), os.path.join(d, "src", "main.rs"))
+    shutil.copy(os.path.join(REPO, "Cargo.lock"), os.path.join(d, "Cargo.lock"))
+    env = dict(ENV); env["CARGO_TARGET_DIR"] = os.path.join(BUILD, "cargo-c20wfs")
+    rc, out, err = sh(["cargo", "build", "--offline"], cwd=d, timeout=900, env=env)
+    if rc != 0:
+        r.extra["watch_fs_smoke"] = "scratch crate does not build: " + " | ".join(l for l in err.splitlines() if l.startswith("error"))[:300]
+        r.broken.append("watch-fs smoke test does not build against /repo's current tree")
+        return
+    rc, out, err = sh([os.path.join(env["CARGO_TARGET_DIR"], "debug", "c20_wfs")], timeout=120, env=env)
+    res = []
+    for line in out.splitlines():
+        f = line.split("\t")
+        if len(f) >= 4 and f[0] == "wfs":
+            res.append(" ".join(f[1:]))
+            r.hist["watch_fs_smoke"][f[2]] += 1
+            if f[2] == "FAIL":
+                r.oracle_failure("wfs " + f[1], "watch-fs smoke test: " + f[3], "watch-fs:" + f[1])
+            elif f[2] == "ok":
+                r.count("wfs " + f[1], True)
+    if rc != 0 or not res:
+        r.broken.append(f"watch-fs smoke test crashed rc={rc}: {err[-200:]}")
+    r.extra["watch_fs_smoke"] = res
+
+
 def run(r):
     r.rule = ("schedules = sequences of scheduling decisions (which thread runs from its yield point to its next one) enumerated by the "
-              "Lean model over its enabled threads: ALL schedules for 1-2 acquires x 0-2 requests (plain, and with one special acquire = every "
-              "combination of {freshness callback true} x {creator fails} x {creator script: none, request, two requests, switch fast on, switch fast on + request}), and for 3 acquires (one special, every position) x 0-1 requests with eager return, with fast "
+              "Lean model over its enabled threads: ALL schedules (or, above a cap, a seeded sample) for 1-2 acquires x 0-2 requests (plain, and with one special acquire = every "
+              "combination of {freshness callback true} x {creator fails} x {creator script: none, request, two requests, switch fast on, switch fast on + request}), and for 3 acquires (one special, every position) x 0-1 requests with eager return; extra threads for the rest of the Notifier API: set_fast_reload(true/false) toggled between acquires with a request pending, set_callback(|| b) replacing the freshness callback, request_reload through the notifier clone the creator kept; sequential probes for dead notifiers and mutex blocking, with fast "
               "reload off/on; quick adds a seeded sample over the 3x3 box, thorough adds ALL eager-return schedules of every 3x(0..3) "
               "configuration and a larger sample at full granularity.  A schedule is non-trivial when at least one request returned "
               "before an acquire locked (an obligation of the property exists).")
     r.assumptions = ["between two hook points a thread's step is not interleaved with other threads' steps in a way the lock structure does not already serialise (each segment contains at most one critical section on shared data besides the held cached_env mutex)",
                      "symmetric threads (identical requesters / identically configured acquirers) are scheduled in index order; for the 3x3 box request_reload returns right after setting the flag (the return step touches no shared state)",
                      "std::sync::Mutex provides mutual exclusion"]
-    r.regen_tables()
+    r.regen_tables(["RELOADER_ACCESSES"])
     r.lean_prove("MJ.Props.C20", "MJ/Audit/C20.lean", extra_targets=["drive_c20"])
     exe = r.cargo_build("c20")
     if exe is None:
@@ -247,6 +327,9 @@ def run(r):
         n_all += 1
         _, _, ths = parse_cfg(cfg)
         r.hist["shape"][f"{sum(1 for t in ths if t[0]=='A')}acq x {sum(1 for t in ths if t[0]=='R')}req"] += 1
+        for t in ths:
+            if t[0] != "A":
+                r.hist["other_threads"][{"R": "request_reload" if t[1] == "R" else "request_reload via kept clone", "F": f"set_fast_reload({t[1]})", "C": f"set_callback(|| {t[1]})"}[t[0]]] += 1
         r.hist["fast"][cfg.split(".")[0]] += 1
         r.hist["granularity"]["eager-return" if cfg.split(".")[1] == "e1" else "full"] += 1
         r.hist["obligations"][min(obligations, 9)] += 1
@@ -262,6 +345,8 @@ def run(r):
     rc, out, err = r.harness(exe, ["probe"])
     for line in out.splitlines():
         f = line.split("\t")
+        if len(f) >= 3 and f[0] == "info":
+            r.extra.setdefault("info", []).append(" ".join(f[1:]))
         if len(f) >= 4 and f[0] == "probe":
             r.count("probe " + f[1], True)
             r.hist["probe"][f[2]] += 1
@@ -269,6 +354,8 @@ def run(r):
                 r.oracle_failure("probe " + f[1], f"mutex-level probe failed: {f[3]}", "probe:" + f[1])
     if rc != 0 or not out.strip():
         r.broken.append(f"probe run failed rc={rc} {err[-200:]}")
+    if r.tier == "thorough":
+        wfs_smoke(r)
 
 
 def replay(r, path):
